@@ -25,7 +25,7 @@ func init() { register(c15{}) }
 
 func (c15) ID() string { return "C15" }
 func (c15) Rule() string {
-	return "the real gts binary (--no-cache) is run on generated GenBank records (20..60 residues that are pairwise distinct complement-invariant printable ids, 0..7 uniquely labelled features over ranges/points/joins/complements, linear and circular) and on the phiX174 corpus record, with locators built from points, ranges, complement(range), selectors by key and /label regexp matching 0..k features, each optionally with a modifier that stays in range; commands delete [-e], insert [-e] (literal and file guests), infix [-e], split, rotate, extract [-v], each also with -F fasta. stdout is parsed back with seqio. The located regions are obtained from the same locator through the library (locator semantics are C08's); the expected output is computed by the model from the regions: delete -> residues minus the union, one record, features = image under the deletion of the maximal runs; insert/infix -> one guest copy per located region at its Head() in input coordinates, features = image under the insertions; split -> pieces concatenate to the input (circular: to the input rotated to a cut), cut set = one acceptable position per region (Head, or the lower coordinate for reverse-strand regions), fragments of each feature together cover its residues; rotate -> first located Head at index 0, features cyclically shifted; extract -> one record per distinct region shorter than the record (a single region as long as the record is don't-care), residues = model extraction, -v -> the maximal unlocated stretches. non-trivial: >=2 located regions, or regions that overlap/nest/abut/are unsorted; distinct: (command line, input record)."
+	return "the real gts binary (--no-cache) is run on generated GenBank records (20..60 residues that are pairwise distinct complement-invariant printable ids, 0..7 uniquely labelled features over ranges/points/joins/complements, linear and circular) and on the phiX174 corpus record, with locators built from points, ranges, complement(range), selectors by key and /label regexp matching 0..k features, each optionally with a modifier that stays in range; commands delete [-e], insert [-e] (literal and file guests), infix [-e], split, rotate, extract [-v], each also with -F fasta. stdout is parsed back with seqio. The located regions are obtained from the same locator through the library (locator semantics are C08's); the expected output is computed by the model from the regions: delete -> residues minus the union, one record, features = image under the deletion of the maximal runs; insert/infix -> one guest copy per located region at its Head() in input coordinates, features = image under the insertions; split -> pieces concatenate to the input (circular: to the input rotated to a cut), cut set = one acceptable position per region (Head, or the lower coordinate for reverse-strand regions), fragments of each feature together cover its residues; rotate -> first located Head at index 0, features cyclically shifted; extract -> one record per distinct region shorter than the record (a single region as long as the record is don't-care), residues = model extraction, -v -> the maximal unlocated stretches (the whole record when nothing is located). non-trivial: >=2 located regions, or regions that overlap/nest/abut/are unsorted; distinct: (command line, input record)."
 }
 func (c15) Assumptions() []string {
 	return []string{"seqio's scanner as the reader of gts output (itself the subject of C01/C07/C16/C17)", "the library's AsLocator for which regions a locator denotes (subject of C08)", "Go toolchain; harness models"}
@@ -189,6 +189,21 @@ func (x *c15run) featuresByLabel(seq gts.Sequence) map[string][]gts.Feature {
 func (x *c15run) stream(recs []*c15rec, cmd string, flags []string, locstr string) {
 	c := x.c
 	args := append([]string{cmd, locstr}, flags...)
+	switch cmd {
+	case "insert":
+		// host records on stdin, one literal guest.
+		args = append([]string{cmd, locstr, "@" + string(gen.UniqueBytes(60, 3))}, flags...)
+	case "infix":
+		// guest records on stdin (FASTA), the first record as the host file.
+		os.WriteFile(x.env.File("shost.gb"), recs[0].text, 0644)
+		args = append([]string{cmd, locstr, "shost.gb"}, flags...)
+		var gs []*c15rec
+		for i := range recs {
+			g := gen.UniqueBytes(60+4*i, 2+i)
+			gs = append(gs, &c15rec{text: []byte(fmt.Sprintf(">g%d\n%s\n", i, g)), bytes: g})
+		}
+		recs = gs
+	}
 	args = append(args, "--no-cache")
 	var all []byte
 	for _, r := range recs {
@@ -253,6 +268,24 @@ func (x *c15run) one(rec *c15rec, cmd string, flags []string, locstr string, r *
 	default:
 		args = append(args, locstr)
 	}
+	var loc2 string
+	if cmd == "extract" && r.Intn(3) == 0 {
+		// a second locator: the same range on the other strand, the same
+		// locator again, or another one.
+		switch r.Intn(3) {
+		case 0:
+			a := r.Intn(L - 1)
+			b := a + 1 + r.Intn(L-a-1)
+			locstr = fmt.Sprintf("%d..%d", a+1, b+1)
+			loc2 = fmt.Sprintf("complement(%d..%d)", a+1, b+1)
+			args[len(args)-1] = locstr
+		case 1:
+			loc2 = locstr
+		default:
+			loc2 = c15Locator(r, rec)
+		}
+		args = append(args, loc2)
+	}
 	args = append(args, flags...)
 	if fasta {
 		args = append(args, "-F", "fasta")
@@ -273,9 +306,15 @@ func (x *c15run) one(rec *c15rec, cmd string, flags []string, locstr string, r *
 	var regs []gts.Region
 	var lerr error
 	if p, val, _, _ := fw.Guard(func() {
-		var loc gts.Locator
-		loc, lerr = gts.AsLocator(locstr)
-		if lerr == nil {
+		for _, ls := range []string{locstr, loc2} {
+			if ls == "" {
+				continue
+			}
+			var loc gts.Locator
+			loc, lerr = gts.AsLocator(ls)
+			if lerr != nil {
+				return
+			}
 			for _, rg := range loc(rec.seq) {
 				regs = append(regs, rg)
 			}
@@ -294,7 +333,7 @@ func (x *c15run) one(rec *c15rec, cmd string, flags []string, locstr string, r *
 	// (C08's oracle, applied to the very locators this run uses): the regions of
 	// the bare specifier, windowed by the model, must cover the same positions
 	// in the same order as the regions the library returns for X@M.
-	if at := strings.LastIndex(locstr, "@"); at > 0 {
+	if at := strings.LastIndex(locstr, "@"); at > 0 && loc2 == "" {
 		if kind, p, q, ok := c15ParseMod(locstr[at+1:]); ok {
 			var baseRegs gts.Regions
 			if pn, _, _, _ := fw.Guard(func() {
@@ -407,6 +446,9 @@ func (x *c15run) one(rec *c15rec, cmd string, flags []string, locstr string, r *
 		c.Bucket("format:genbank")
 	}
 	c.Bucket("input:" + src)
+	if loc2 != "" {
+		c.Bucket("extract:two-locators")
+	}
 	if strings.Contains(locstr, "@") || strings.HasPrefix(locstr, "^") || strings.HasPrefix(locstr, "$") {
 		c.Bucket("locator:modifier")
 	}
@@ -685,7 +727,8 @@ func (x *c15run) one(rec *c15rec, cmd string, flags []string, locstr string, r *
 			if prev < L {
 				wantRecs = append(wantRecs, rec.bytes[prev:])
 			}
-			// a single stretch as long as the record (nothing located) is don't-care.
+			// nothing located (or zero-length sites only): the one maximal
+			// unlocated stretch is the whole record and must be emitted.
 		} else {
 			seen := [][]model.DSeg{}
 			for i := range regs {
@@ -705,7 +748,7 @@ func (x *c15run) one(rec *c15rec, cmd string, flags []string, locstr string, r *
 		}
 		var strict, optional [][]byte
 		for _, w := range wantRecs {
-			if len(w) == L {
+			if len(w) == L && !invert {
 				optional = append(optional, w)
 			} else {
 				strict = append(strict, w)
@@ -843,7 +886,22 @@ func c15Locator(r *rand.Rand, rec *c15rec) string {
 	return x
 }
 
-func (m c15) Run(c *fw.Ctx) {
+// c15cmd is one gts edit command line shape driven by c15Drive.
+type c15cmd struct {
+	cmd   string
+	flags []string
+}
+
+var c15AllCmds = []c15cmd{{"delete", nil}, {"delete", []string{"-e"}}, {"insert", nil}, {"insert", []string{"-e"}}, {"infix", nil}, {"infix", []string{"-e"}}, {"split", nil}, {"rotate", nil}, {"extract", nil}, {"extract", []string{"-v"}}}
+
+func (m c15) Run(c *fw.Ctx) { c15Drive(c, c15AllCmds, c.Pick(250, 8000)) }
+
+// c15Drive runs N cases of the given gts commands on the real binary and
+// judges each output against the models. It is C15's workload; C02, C03, C04
+// and C08 name the same commands among their observation points and drive
+// their subset through it, so a defect in the wiring of `gts insert` is
+// reported by the check of the property it breaks.
+func c15Drive(c *fw.Ctx, cmds []c15cmd, N int) {
 	bin := os.Getenv("GTS_BIN")
 	if bin == "" {
 		c.Inconclusive("GTS_BIN not set")
@@ -881,13 +939,7 @@ func (m c15) Run(c *fw.Ctx) {
 			}
 		}
 	}
-	type cf struct {
-		cmd   string
-		flags []string
-	}
-	cmds := []cf{{"delete", nil}, {"delete", []string{"-e"}}, {"insert", nil}, {"insert", []string{"-e"}}, {"infix", nil}, {"infix", []string{"-e"}}, {"split", nil}, {"rotate", nil}, {"extract", nil}, {"extract", []string{"-v"}}}
 	r := c.Rng
-	N := c.Pick(250, 8000)
 	for it := 0; it < N; it++ {
 		c.NextOwn()
 		var rec *c15rec
@@ -910,7 +962,7 @@ func (m c15) Run(c *fw.Ctx) {
 		cr := rand.New(rand.NewSource(caseSeed))
 		loc := c15Locator(cr, rec)
 		x.one(rec, k.cmd, k.flags, loc, cr)
-		if (it/len(cmds))%3 == 0 && k.cmd != "insert" && k.cmd != "infix" && !rec.corpus {
+		if (it/len(cmds))%3 == 0 && !rec.corpus {
 			// the same command over a stream of 2..3 generated records.
 			recs := []*c15rec{rec}
 			for n := 1 + cr.Intn(2); n > 0; n-- {
